@@ -27,7 +27,7 @@ from ..rng import Stream
 
 PROP = "C13"
 TIERS = {
-    "quick": {"runs": 4000, "chunk": 50, "shrink_cap_s": 40, "max_minimised": 8},
+    "quick": {"runs": 24000, "chunk": 50, "shrink_cap_s": 40, "max_minimised": 8},
     "thorough": {"budget_s": 900, "chunk": 50, "shrink_cap_s": 120, "max_minimised": 16},
     "run_cap_s": 60,
 }
